@@ -353,6 +353,12 @@ def check_doe_run(ctx: Ctx) -> None:
         en = cfg.node_of(evals[0])
         inner = [t for (t, v), b in cfg.branch.items() if cfg.kind[t] in ("loop", "test") and cfg.dominates(b, en) and t != cfg.node_of(lp) and any(sub is cfg.ast[t] for sub in ast.walk(lp))]
         ctx.ob("3.7-sequential", con, not inner, "the evaluation of a sample must not be conditional or repeated inside the loop", node=evals[0], stmt="one unconditional evaluation per sample")
+    # a failing sample is skipped, the following ones are still evaluated: a handler of ValueError encloses the
+    # evaluation INSIDE the loop (and no handler of it encloses the loop)
+    if evals:
+        inner_try = [t for t in ast.walk(lp) if isinstance(t, ast.Try) and evals[0] in [c for b_ in t.body for c in ast.walk(b_)] and any(h.type is None or "ValueError" in norm_stmt(h.type) or norm_stmt(h.type) in ("Exception", "BaseException") for h in t.handlers)]
+        outer_try = [t for t in stmts_of(f) if isinstance(t, ast.Try) and lp in [c for b_ in t.body for c in ast.walk(b_)] and any(h.type is None or "ValueError" in norm_stmt(h.type) for h in t.handlers)]
+        ctx.ob("3.7-sequential", con, bool(inner_try) and not outer_try, "a sample whose evaluation raises ValueError is skipped and the next samples are still evaluated: the handler must be inside the loop over the samples, not around it", node=(outer_try or inner_try or [lp])[0], stmt="ValueError of one sample handled inside the loop")
     cbs = [c for c in ast.walk(lp) if isinstance(c, ast.Call) and dotted(c.func) == "callback"]
     ok = all(c.args and dotted(c.args[0]) == idx for c in cbs) and bool(cbs)
     ctx.ob("3.7-sequential", con, ok, "callbacks must receive the index of the sample just evaluated", node=(cbs or [lp])[0])
@@ -392,6 +398,7 @@ def run(ctx: Ctx) -> None:
 _OPT = "algos/opt/base_optimization_library.py"
 _DBF = "algos/database.py"
 WITNESSES = [
+    {"name": "doe-handler-around-the-loop", "file": DOE, "old": "            for index, input_value in enumerate(self.samples):\n                try:\n", "new": "            try:\n              for index, input_value in enumerate(self.samples):\n                if True:\n", "expect": "3.7"},
     {"name": "delete-budget-guard", "file": PF, "old": "            if (\n                not database.get(hashed_xu)\n                and self._evaluation_counter.maximum_is_reached\n            ):\n                raise MaxIterReachedException\n\n            output_value = self._compute_output(input_value)", "new": "            output_value = self._compute_output(input_value)", "expect": "3.1"},
     {"name": "guard-or-instead-of-and", "file": PF, "old": "                not database.get(hashed_xu)\n                and self._evaluation_counter.maximum_is_reached\n            ):\n                raise MaxIterReachedException\n\n            jac_n = self._compute_jacobian(xn_vect)", "new": "                not database.get(hashed_xu)\n                or self._evaluation_counter.maximum_is_reached\n            ):\n                raise MaxIterReachedException\n\n            jac_n = self._compute_jacobian(xn_vect)", "expect": "3.1"},
     {"name": "guard-only-counter", "file": PF, "old": "            if (\n                not database.get(hashed_xu)\n                and self._evaluation_counter.maximum_is_reached\n            ):\n                raise MaxIterReachedException\n\n            jacobian = self._compute_jacobian(input_value).real", "new": "            if self._evaluation_counter.maximum_is_reached:\n                raise MaxIterReachedException\n\n            jacobian = self._compute_jacobian(input_value).real", "expect": "3.1"},
